@@ -23,10 +23,10 @@ fn main() {
         "three exhaustively enumerated families, every member fed to every applicable public reading entry point: \
          (1) words: all words of length <= 4 (thorough 5) over an 18-letter alphabet of encoded structural atoms plus all words of length <= 3 over the full 27-letter alphabet, \
          encoded in Implicit VR LE / Explicit VR LE / Explicit VR BE; the bare encoding goes to DataSetReader (3 value strategies x flexible on/off, 3 odd-length strategies), LazyDataSetReader (skip / into_owned, odd-length strategies), read_dataset_with_ts + dump, DicomCollector on a bare data set; \
-         wrapped as a Part 10 file with a valid meta group and preamble it goes to from_reader (odd-length strategies x preamble options) + dump + pixel decoding and DicomCollector (6 operation scripts); words of <= 3 letters also without preamble and with every configuration, words of <= 2 letters also through open_file; \
+         wrapped as a Part 10 file with a valid meta group and preamble it goes to from_reader (odd-length strategies x preamble options) + dump + pixel decoding and DicomCollector (6 operation scripts); words of <= 3 letters also without preamble and with every configuration, words of <= 2 letters also through open_file; 5-letter words (thorough) go bare to DataSetReader (preserved; interpreted+flexible) and LazyDataSetReader (into_owned) only; \
          (2) edits: for every seed (one data set per atom class x 3 syntaxes, nested and encapsulated data sets, 5 files incl. RLE/native/deflated, the meta group, 7 PDU kinds, RLE/JPEG/deflated/uncompressed frames, 2 DICOM JSON documents, 13 tag/selector/date/time/range strings) \
          the seed, every truncation, every single-byte substitution from {00,01,7F,80,FE,FF,'A','\\'} (text seeds: 22 characters incl. 2-,3-,4-byte scalars), every single deletion, every single duplication, and every pair of substitutions inside 16-byte header windows (quick: primary windows only); \
-         (3) short inputs: every byte string of length <= 2 bare, as body of each PDU type, after the magic code, as meta group content and as data set of a valid file (thorough: also every 3-byte string, bare, for read_pdu, FileMetaTable::from_reader and the data set readers); every string over a 14-class alphabet up to 6 (thorough 7) bytes and over a 6-class alphabet up to 9 (thorough 11) bytes for Tag::from_str / parse_tag / parse_selector, \
+         (3) short inputs: every byte string of length <= 2 bare, as body of each PDU type, after the magic code, as meta group content and as data set of a valid file (thorough: also every 3-byte string, bare, for read_pdu, FileMetaTable::from_reader, DataSetReader and LazyDataSetReader); every string over a 14-class alphabet up to 6 (thorough 7) bytes and over a 6-class alphabet up to 9 (thorough 11) bytes for Tag::from_str / parse_tag / parse_selector, \
          every byte string over 14 classes up to 5 (thorough 6) bytes for the date/time/date-time and range parsers; a DICOM JSON grammar (key x vr x Value x InlineBinary x BulkDataURI, pairs, nesting <= 2); pixel decoding (decode_pixel_data, decode_pixel_data_frame 0 and 1) over 8 transfer syntaxes x Rows x Columns x BitsAllocated x SamplesPerPixel x NumberOfFrames x 8 pixel data variants. \
          A case is (family, index, entry point, configuration, transfer syntax); distinct inputs are counted by (entry point, syntax, bytes) per shard; non-trivial = the subject was invoked on a non-empty input. \
          Oracle: Ok or Err within 5 s of CPU time (120 s wall clock), no panic (catch_unwind), no abort, no allocation failure under a 256 MiB address-space cap (worker subprocesses; the culprit of a dead worker is re-run alone twice in forked children before it is reported)",
